@@ -110,6 +110,7 @@ def handle (line : String) : String :=
   | "serialize" :: rest => Sql.Driver.cmdSerialize rest
   | "sertext" :: rest => Sql.Driver.cmdSerText rest
   | "caseconv" :: rest => Sql.Driver.cmdCaseConv rest
+  | "fmtstmt" :: rest => Sql.Driver.cmdFmtStmt rest
   -- <<< formatting-side commands
   | _ => "bad-request"
 
